@@ -35,6 +35,8 @@ def method_models():
         return recv.with_eff(("rename", m), dims=tuple(m.get(d, d) for d in dims))
 
     def getitem(ev, recv, args, kw, node):
+        if isinstance(args[0], dict):  # da[{dim: indexer}] is da.isel({dim: indexer})
+            return isel(ev, recv, [args[0]], {}, node)
         return Obj("Coord", "coord", (), {"of": recv, "key": args[0]})
 
     def expand_dims(ev, recv, args, kw, node):
